@@ -35,7 +35,7 @@ CLAIMED = {
     "C14": ("4/C14", "log-factor for all factor kinds; linear conditionals with arbitrary Gaussian q; LRBF/LSEM with tilted-Gaussian closed-form oracle, Dx=1, Dk<=2 (Dx=2 thorough)"),
     "C15": ("4/C15", "relational: specialised vs general class built from the same parameters, all operations the specialised class supports; D=2, R<=2, Dx+Dy<=3 (identity D<=2)"),
     "C16": ("4/C16", "(a) moments of LRBF/LSEM/exp/cosh-1 against tilted-Gaussian closed forms + structure of condition_on_x; (b) assembly for all six classes with stubbed symbolic moments; step/relu link moments for Dx=1 via Phi atoms"),
-    "C17": ("4/C17", "coherence clause (mean, covariance, precision = inverse, log-determinant of condition_on_x for all four links, link value arbitrary); step-link EQUALITY of the bound for Dx=1; exactness at zero input weights and the first-order tightness condition (d gap/d eps = 0 at eps = 0, jvp of the real code) for exp and cosh-1; declined: lb <= truth away from zero weights (exp, cosh-1) and the rectified-linear bound (no closed-form right-hand side)"),
+    "C17": ("4/C17", "coherence clause (mean, covariance, precision = inverse, log-determinant of condition_on_x for all four links, link value arbitrary); step-link EQUALITY of the bound for Dx=1; exactness at zero input weights and the first-order tightness condition (d gap/d eps = 0 at eps = 0, jvp of the real code) for exp and cosh-1; lb <= truth for exp, cosh-1 (Dx<=2) and the rectified-linear link (Dx=1) through a witness minorant (returned value = closed-form expectation of an explicit pointwise minorant, for arbitrary variational parameters; failed equalities are replayed against quadrature of the true expectation); declined: the inequality for several noise units / wide A / rectified-linear Dx>=2, tightness beyond first order"),
     "C18": ("4/C18", "round trips (tree flatten/unflatten, jit boundary, tree_map, to_dict/from_dict, scan carry) for every class; vmap and grad as translation validation on 6 pipelines; 'jit == eager' and 'all programs' are outside"),
     "C20": ("4/C20 + 10.8", "normal cdf as a symbolic atom (axioms: range, monotone, symmetry, Phi(0)=1/2, limits); F_k decided by fundamental-theorem derivatives + additivity + two anchors, k<=4 (6 thorough), finite / one-sided / infinite limits, R<=2; evaluation on the three regions; normalised variants; far-tail floating-point accuracy outside"),
     "C19": ("4/C19", "jax.random.normal stubbed by an arbitrary array; R<=2, D<=3, n<=2"),
